@@ -18,6 +18,13 @@ class DomainError(Exception):
     """reference evaluation left the domain on which it is defined/finite"""
 
 
+def _m(a, b):
+    """a*b with 0*inf = 0 (an exactly-zero factor annihilates an unbounded uncertainty)"""
+    if a == 0.0 or b == 0.0:
+        return 0.0
+    return a * b
+
+
 class EN(object):
     __slots__ = ("v", "e", "u")
 
@@ -56,8 +63,8 @@ class EN(object):
     def __mul__(self, o):
         o = EN.lift(o)
         v = self.v * o.v
-        return EN(v, abs(self.v) * o.e + abs(o.v) * self.e + abs(v),
-                  abs(self.v) * o.u + abs(o.v) * self.u)
+        return EN(v, _m(abs(self.v), o.e) + _m(abs(o.v), self.e) + abs(v),
+                  _m(abs(self.v), o.u) + _m(abs(o.v), self.u))
 
     __rmul__ = __mul__
 
@@ -66,8 +73,8 @@ class EN(object):
         if o.v == 0.0:
             raise DomainError("division by zero")
         v = self.v / o.v
-        return EN(v, self.e / abs(o.v) + abs(self.v) * o.e / (o.v * o.v) + abs(v),
-                  self.u / abs(o.v) + abs(self.v) * o.u / (o.v * o.v))
+        return EN(v, self.e / abs(o.v) + _m(abs(self.v), o.e) / (o.v * o.v) + abs(v),
+                  self.u / abs(o.v) + _m(abs(self.v), o.u) / (o.v * o.v))
 
     def __rtruediv__(self, o):
         return EN.lift(o) / self
@@ -77,7 +84,7 @@ class EN(object):
             v = math.exp(self.v)
         except OverflowError:
             raise DomainError("exp overflow")
-        return EN(v, v * self.e + v, v * self.u)
+        return EN(v, _m(v, self.e) + v, _m(v, self.u))
 
     def log(self):
         if self.v <= 0.0:
@@ -110,26 +117,26 @@ class EN(object):
         if isinstance(v, complex):
             raise DomainError("complex pow")
         g = abs(p) * abs(v) / abs(self.v)
-        return EN(v, g * self.e + abs(v), g * self.u)
+        return EN(v, _m(g, self.e) + abs(v), _m(g, self.u))
 
     def sin(self):
         v = math.sin(self.v)
         g = abs(math.cos(self.v))
-        return EN(v, g * self.e + abs(v), g * self.u)
+        return EN(v, _m(g, self.e) + abs(v), _m(g, self.u))
 
     def cos(self):
         v = math.cos(self.v)
         g = abs(math.sin(self.v))
-        return EN(v, g * self.e + abs(v), g * self.u)
+        return EN(v, _m(g, self.e) + abs(v), _m(g, self.u))
 
     def erf(self):
         v = math.erf(self.v)
         g = _SQRTPI2 * math.exp(-self.v * self.v)
-        return EN(v, g * self.e + abs(v), g * self.u)
+        return EN(v, _m(g, self.e) + abs(v), _m(g, self.u))
 
     def tanh(self):
         v = math.tanh(self.v)
-        return EN(v, (1 - v * v) * self.e + abs(v), (1 - v * v) * self.u)
+        return EN(v, _m(1 - v * v, self.e) + abs(v), _m(1 - v * v, self.u))
 
 
 def _c(x):
@@ -167,9 +174,9 @@ class Jet(object):
     # value / derivatives ------------------------------------------------
     def d(self, k):
         """k-th derivative as EN"""
-        f = (1.0, 1.0, 2.0, 6.0, 24.0)[k]
+        f = (1.0, 1.0, 2.0, 6.0, 24.0, 120.0)[k]
         c = self.c[k]
-        return EN(c.v * f, c.e * f, c.u * f)
+        return EN(c.v * f, _m(c.e, f), _m(c.u, f))
 
     @property
     def v(self):
